@@ -56,9 +56,16 @@ AXES = {
 OPS_ALL = ["holo-mieA", "holo-mieA2", "holo-mieA3", "holo-tmA", "holo-tmA2",
            "holo-mie-far", "holo-mie-norad",
            "holo-mieB", "holo-ms2", "holo-ms2b", "holo-mielens",
-           "holo-mielens2", "xsec-mie", "smat-tm", "holo-tmB", "holo-ms1",
+           "holo-mielens2", "xsec-mie", "smat-tm",
+           # the same particle through theory objects that differ in one
+           # option only (acceptance angle, aberration, quadrature, solver
+           # tolerance), and a cluster that differs in absorption only
+           "holo-mielens-angle", "holo-abml", "holo-abml2", "holo-ms2c",
+           "holo-mielens-npts", "holo-lensmie", "holo-lensmie-angle",
+           "holo-ms2-tight",
+           "holo-tmB", "holo-ms1",
            "holo-tmcyl", "holo-tmsph", "holo-layered"]
-OPS = {"quick": OPS_ALL[:14], "thorough": OPS_ALL + ["holo-mie-nofull"]}
+OPS = {"quick": OPS_ALL[:18], "thorough": OPS_ALL + ["holo-mie-nofull"]}
 CORE = OPS_ALL[:7]
 
 
@@ -383,6 +390,9 @@ def _shared():
                                    rotation=(0.0, 0.41, 0.7), center=c0)
         _SHARED["ms2b"] = H.mk_scatterer(
             ("spheres", [(1.59, 0.5, c0), (1.45, 0.3, (1.3, 0.9, 6.05))]))
+        _SHARED["ms2c"] = H.mk_scatterer(
+            ("spheres", [(1.59 + 0.05j, 0.5, c0),
+                         (1.45, 0.3, (1.3, 0.9, 6.0))]))
         _SHARED["mielens2"] = Sphere(n=1.59, r=0.5,
                                      center=(c0[0], c0[1], c0[2] + 0.01))
         _SHARED["tmB"] = Spheroid(n=1.5, r=(0.9, 0.45),
@@ -425,6 +435,32 @@ def _op(name):
         r = calc_holo(det, S["ms2b"], theory=S["ms2"][1], **kw)
     elif name == "holo-mielens2":
         r = calc_holo(det, S["mielens2"], theory=S["mielens"][1], **kw)
+    elif name == "holo-mielens-angle":
+        from holopy.scattering import MieLens
+        r = calc_holo(det, S["mielens"][0], theory=MieLens(lens_angle=0.6),
+                      **kw)
+    elif name == "holo-mielens-npts":
+        from holopy.scattering import MieLens
+        r = calc_holo(det, S["mielens"][0], theory=MieLens(
+            lens_angle=0.8, calculator_accuracy_kwargs={"quad_npts": 120}),
+            **kw)
+    elif name in ("holo-abml", "holo-abml2"):
+        from holopy.scattering import AberratedMieLens
+        co = [0.1, -0.05, 0.02] if name == "holo-abml" else [0.1, -0.05, 0.03]
+        r = calc_holo(det, S["mielens"][0], theory=AberratedMieLens(
+            spherical_aberration=co, lens_angle=0.8), **kw)
+    elif name in ("holo-lensmie", "holo-lensmie-angle"):
+        from holopy.scattering.theory import Lens
+        la = 0.8 if name == "holo-lensmie" else 0.6
+        r = calc_holo(det, S["mielens"][0], theory=Lens(
+            la, Mie(False, False), quad_npts_theta=30, quad_npts_phi=30),
+            **kw)
+    elif name == "holo-ms2c":
+        r = calc_holo(det, S["ms2c"], theory=S["ms2"][1], **kw)
+    elif name == "holo-ms2-tight":
+        from holopy.scattering import Multisphere
+        r = calc_holo(det, S["ms2"][0], theory=Multisphere(
+            eps=1e-10, qeps1=1e-9, qeps2=1e-12), **kw)
     elif name == "holo-ms2":
         r = holo("ms2")
     elif name == "holo-ms1":
@@ -462,7 +498,7 @@ def _inputs_fp():
     for k, v in sorted(S.items()):
         if isinstance(v, tuple):
             parts.append(repr(v[0]))
-        elif k in ("mieB", "tmB", "mieA2", "mieA3", "tmA2", "ms2b",
+        elif k in ("mieB", "tmB", "mieA2", "mieA3", "tmA2", "ms2b", "ms2c",
                    "mielens2"):
             parts.append(repr(v))
     return digest(*parts)
